@@ -218,13 +218,20 @@ type focusHandler struct {
 
 	// path is the path to the focused widet
 	path []Widget
+
+	// lastFrame is the frame the path was computed from
+	lastFrame Surface
 }
 
 func (f *focusHandler) handleEvent(app *App, ev vaxis.Event) error {
 	app.consumeEvent = false
 
+	// The event is routed along the path as it is now, even if a handler
+	// moves the focus
+	path := f.path
+
 	// Capture phase
-	for _, w := range f.path {
+	for _, w := range path {
 		c, ok := w.(EventCapturer)
 		if !ok {
 			continue
@@ -253,8 +260,8 @@ func (f *focusHandler) handleEvent(app *App, ev vaxis.Event) error {
 
 	// Bubble phase. We don't bubble to the focused widget (which is the
 	// last one in the list). Hence, - 2
-	for i := len(f.path) - 2; i >= 0; i -= 1 {
-		w := f.path[i]
+	for i := len(path) - 2; i >= 0; i -= 1 {
+		w := path[i]
 		cmd, err := w.HandleEvent(ev, BubblePhase)
 		if err != nil {
 			return err
@@ -270,16 +277,24 @@ func (f *focusHandler) handleEvent(app *App, ev vaxis.Event) error {
 }
 
 func (f *focusHandler) updatePath(app *App, root Surface) {
-	// Clear the path
-	f.path = []Widget{}
+	f.lastFrame = root
 
-	ok := f.childHasFocus(root)
+	ok := f.buildPath()
 	if !ok {
 		// Best effort refocus
 		_ = f.focusWidget(app, f.root)
 	}
+}
 
-	if f.root != root.Widget || len(f.path) == 0 {
+// buildPath recomputes the path from the root to the focused widget in the
+// last frame. It returns false if the focused widget is not part of it
+func (f *focusHandler) buildPath() bool {
+	// Clear the path
+	f.path = []Widget{}
+
+	ok := f.childHasFocus(f.lastFrame)
+
+	if f.root != f.lastFrame.Widget || len(f.path) == 0 {
 		// Make sure that we always add the original root widget as the
 		// last node. We will reverse the list, making this widget the
 		// first one with the opportunity to capture events
@@ -291,6 +306,7 @@ func (f *focusHandler) updatePath(app *App, root Surface) {
 	for i := 0; i < len(f.path)/2; i++ {
 		f.path[i], f.path[len(f.path)-1-i] = f.path[len(f.path)-1-i], f.path[i]
 	}
+	return ok
 }
 
 func (f *focusHandler) childHasFocus(s Surface) bool {
@@ -326,6 +342,9 @@ func (f *focusHandler) focusWidget(app *App, w Widget) error {
 	// newly focused widget changes focus again, we need to set this before
 	// the handleCommand call
 	f.focused = w
+	// The path follows the focus right away: events which arrive before the
+	// next frame are routed through the ancestors of the new widget
+	f.buildPath()
 	cmd, err = w.HandleEvent(vaxis.FocusIn{}, TargetPhase)
 	if err != nil {
 		return err
